@@ -73,7 +73,75 @@ envthreads are P only (outside the Coq model, see the comment above XCONT_HOMOG)
   _jaccarddist_parallel directly                 schedule; non-contiguous query / values / bounds / out:
                                                  WAS MISSING -> audit-kernel-strided                  P M
 Not covered: read-only signature arrays (gambit.metric.jaccarddist itself refuses them, so the predicate is
-undefined); interleavings below one prange iteration (explored, see TRUSTED); > 2^31 references."""
+undefined); interleavings below one prange iteration (explored, see TRUSTED); > 2^31 references.
+
+State and aliasing (audit of hidden state: what outlives one call, and which stream reuses it).  Entry points the
+property is observed through: E1 jaccarddist_array(query, refs, out), E2 jaccarddist_matrix(queries, refs,
+ref_indices, out, chunksize, progress), E3 jaccarddist_pairwise(sigs, indices, flat, out, progress), E4 the compiled
+_jaccarddist_parallel(query, values, bounds, out), E5 gambit.util.misc.chunk_slices(n, size) (a generator function),
+E6 gambit._cython.threads.omp_set_num_threads / omp_get_max_threads; `gambit dist`, `gambit tree`, `gambit query` and
+gambit.query.query reach E2 / E3 with fresh objects per process (their cells: C16 / C17 / C04 / C09).
+Columns: (a) reused by >= 2 calls whose other arguments differ (other collection / size / dtype / selection / chunk
+size / function), in both orders; (b) compared after every call with its state before it; (c) used again, on the same
+thread, after a call that failed part-way; (d) the same call twice, same answer; (e) used from a second Python thread.
+"old" = audit-call-sequences / audit-concurrent-callers as they were; S = state-scripts (kind `state`), T = state-concurrent-
+shared-objects (kind `concurrent` with shared=True: 2-4 Python threads at once on ONE references holder and ONE index
+object, both compared afterwards with their state before), both added by this audit.  The modelled kinds matrix / pairwise
+now hand the implementation a COPY of the case's index list and compare it afterwards (they used to pass the case's own list,
+so a call that edited it edited the case).
+  object (who owns it, how long it lives)               a            b    c    d            e
+  query array (E1; caller)                              S (was: a    S    S    S `twice`    S `thread`
+                                                        fresh array
+                                                        per call)
+  references holder (E1-E3; caller, long-lived):        old: ONE     S,   S    S, old reps  S, T; old: own
+    SignatureArray and views sharing one `values`,      collection   T                      objects per
+    SignatureList / list / tuple and the arrays in      per case.                           thread only
+    them, AnnotatedSignatures (signatures, ids, meta),  S: 2-3 collections of EQUAL or different size / signature
+    HDF5Signatures reader + its open file (values,      lengths / dtype / holder, used in turn (a, b, a) with the
+    bounds, ids, attributes, open or closed)            same query / index / buffer objects; and changed BY THE
+                                                        CALLER between calls: item replaced, signature overwritten
+                                                        in place (the documented way to fill SignatureArray
+                                                        .uninitialized), list grown / shortened, reader closed,
+                                                        holder dropped and rebuilt with other content (the new object
+                                                        may get the old address), a bad item put in and taken out
+  queries holder (E2; caller), also the SAME object     S, old       S    S    S            S
+    as the references
+  ref_indices / indices object (E2, E3; caller): list,  old: one     S,   S    S            S, T
+    tuple, range, ndarray of any integer dtype /        collection;  T
+    strided / read-only, array.array, NumPy scalars     S: against collections of two sizes (negative entries mean
+                                                        other items, entries valid for one are out of range for the
+                                                        other), rewritten by the caller between calls
+  out buffer (E1-E3; caller) - DOCUMENTED as written:   old: same    S: the result IS that object; cells of the
+    judged as such                                      shape and    caller's array OUTSIDE the view passed (every
+                                                        function;    other element, block in a wider array) keep a
+                                                        S: across    guard value; buffers of earlier calls not passed
+                                                        collections, to this one are untouched; a buffer left half
+                                                        after failed written by a failed call is fully rewritten by
+                                                        calls        the next good one
+  arrays returned by earlier calls (callee-allocated)   old, S: keep their values after every later call
+  chunksize / flat                                      immutable values - nothing to alias
+  progress argument (E2, E3; caller): one               S            S    S: a meter that raises at its n-th
+    ProgressConfig (callable + kw dict) / meter class                     increment ends the call part-way
+    shared by the calls of a script
+  keyword dict                                          n/a: Python copies **kw at the call, the callee cannot reach it
+  generator objects of chunk_slices (E5)                state-chunk-generators (kind `chunkgens`): several alive at once,
+                                                        advanced in turn, the same (n, size) asked for again
+  gambit.metric / gambit.util.misc module globals,      not observable as objects: any effect on a cell is seen by (a)
+    memos on functions, state of the compiled module    with EQUAL-shaped collections of different content, (d), and
+                                                        by computing every expected cell BEFORE the first step of a
+                                                        script (no other gambit call runs between two steps, so a memo
+                                                        is not refreshed by the oracle); every replay is one process
+  OpenMP thread count (E6; per-thread control variable  set before every step (1..16); steps marked `thread` run in a new
+    of libgomp), thread-local scratch                   Python thread (which starts from the default count) between
+                                                        main-thread steps on the same objects; audit-concurrent-callers
+  after fork()                                          NOT exercised: no entry point is advertised as usable after fork
+                                                        (gambit forks only to compute signatures, C06 / C13), and libgomp's
+                                                        thread pool does not survive fork
+Failing steps of a script (c): index entry out of range for THIS collection (IndexError required), buffer of the wrong
+shape (ValueError required), and - outcome not judged, only what follows - a float array in the middle of the queries
+/ of a list of references, a query sequence whose iteration raises at item n, a progress meter that raises at its n-th
+increment, a reader whose file the caller closed.  A truncated signature file cannot be opened at all (C19), so it
+never reaches these functions."""
 import itertools
 import os
 
@@ -95,7 +163,16 @@ RULE = ('bulk call (array / matrix / pairwise) on a collection x container x dty
         'different cells and one such form present.  sequence: 2-7 calls sharing container, index object and buffers; '
         'non-trivial: a later call has two different cells.  concurrent: 2-4 calls from Python threads at once.  envthreads: '
         'calls in a fresh interpreter whose thread count comes from OMP_* variables; non-trivial: more than one thread.  '
-        'api / sequence / concurrent / envthreads are judged by the property predicate only (no model)')
+        'state: a script of 2-20 steps over a pool of shared objects (2-3 reference collections of equal or different '
+        'shape, query arrays, query holders, 2 index objects, shared output buffers, one progress configuration): bulk '
+        'calls that pick their arguments from the pool with repetition (the same call on collection a, b, a), calls that '
+        'fail part-way, and changes the caller makes to its own objects between calls; every call is judged by the '
+        'predicate, "result is the buffer", "cells outside the view passed as out keep their guard value", "every other '
+        'pool object is bit-for-bit what it was before the call", "same call twice, same cells", "arrays handed out '
+        'earlier keep their values"; non-trivial: a second or later good call has two different cells.  concurrent with '
+        'shared=True: the jobs use one references holder and one index object, compared afterwards with their state before.  chunkgens: 2-5 '
+        'chunk_slices generators alive at once; non-trivial: two generators, one with two slices.  '
+        'api / sequence / concurrent / envthreads / state / chunkgens are judged by the property predicate only (no model)')
 TRUSTED = ['tools/pyx2v.py (Cython subset -> Gallina: prange = iterations run one after the other in some order, '
            'begin/end per iteration; memoryview slice = clamped slice)',
            'OpenMP / Cython privatisation of begin,end: interleavings below iteration granularity are not modelled '
@@ -103,10 +180,18 @@ TRUSTED = ['tools/pyx2v.py (Cython subset -> Gallina: prange = iterations run on
            'indexing a SignatureArray / SignatureList / HDF5Signatures with an int, a slice or an index list behaves '
            'like the plain list (property C20, proved there)',
            'NumPy basic-slice views (out[i, a:b], out[a:b]) alias the buffer; np.empty / fill_diagonal / fancy '
-           'assignment out[cols, i] = out[i, cols] as modelled in Model/C05.v']
+           'assignment out[cols, i] = out[i, cols] as modelled in Model/C05.v',
+           'state scripts: the fingerprint of a caller-owned object (bytes, dtype, strides, writeable flag and base of every '
+           'array; identity and order of list items; values / bounds / ids / attributes of an HDF5 reader read through h5py; '
+           'instance attributes that existed before the call) is taken by the harness without calling gambit.metric; '
+           'object identity and hidden module state are outside the Coq model (its functions are pure), so this part is '
+           'exploration, not proof']
 ASSUMPTIONS = ['signatures are sorted and duplicate-free (outside that the pair distance itself is unspecified)',
                'number of references < 2^31 (the prange index is a C int), array lengths < 2^62',
-               'progress meter absent in the model (calls with a meter are judged by the property predicate only)']
+               'progress meter absent in the model (calls with a meter are judged by the property predicate only)',
+               'state scripts: between two calls the caller changes its objects only through their public interface (item '
+               'assignment, in-place write into holder[i], append / pop, close, rebuilding the holder) - attributes such as '
+               'SignatureArray.values / .bounds are not rebound; the bulk functions are not called after fork()']
 
 CONT = {'array': 0, 'hdf5': 1, 'siglist': 2, 'pylist': 3}
 GOOD_DT = ['u2', 'u4', 'u8', 'i2', 'i4', 'i8']
@@ -381,7 +466,7 @@ def k_matrix(ctx, cases):
 			queries = _container(c['qcont'], c['queries'], c['dq'])
 		refs = _container(c['cont'], c['refs'], c['dr'])
 		ri = c.get('ri')
-		ri_impl = ri
+		ri_impl = None if ri is None else list(ri)      # never the case's own list: the call must not be able to edit the case
 		if ri is not None and c.get('ri_kind', 'list') != 'list':
 			ri_impl = np.array(ri, dtype=c['ri_kind']) if ri else np.empty(0, dtype=c['ri_kind'])
 		_set_threads(c.get('threads', 1))
@@ -407,6 +492,10 @@ def k_matrix(ctx, cases):
 			expect = ('ok', [[_pairbits(cache, q, r, c['dq'], c['dr']) for r in sel] for q in c['queries']])
 		model = _model_outcome(ans[n]) if ans is not None else None
 		ctx.case(c, nontrivial=bool(expect and expect[0] == 'ok' and _nontrivial(c, expect[1], nr)))
+		if ri is not None and [int(x) for x in ri_impl] != ri:
+			ctx.violation('matrix', c, 'jaccarddist_matrix modified the index object passed as ref_indices (only `out` is documented as '
+			              'written)', impl=[int(x) for x in ri_impl], spec=ri)
+			continue
 		_report(ctx, 'matrix', c, runs, expect, model, 'jaccarddist_matrix')
 
 
@@ -427,7 +516,7 @@ def k_pairwise(ctx, cases):
 		good = c['d'] in GOOD_DT
 		sigs = _container(c['cont'], c['sigs'], c['d'])
 		idx = c.get('indices')
-		idx_impl = idx
+		idx_impl = None if idx is None else list(idx)
 		if idx is not None and c.get('idx_kind', 'list') != 'list':
 			idx_impl = np.array(idx, dtype=c['idx_kind']) if idx else np.empty(0, dtype=c['idx_kind'])
 		_set_threads(c.get('threads', 1))
@@ -458,6 +547,10 @@ def k_pairwise(ctx, cases):
 				                 for i in range(m)])
 		model = _model_outcome(ans[n]) if ans is not None else None
 		ctx.case(c, nontrivial=bool(expect and expect[0] == 'ok' and m >= 3 and _nontrivial(dict(c, threads=c.get('threads', 1)), expect[1], m)))
+		if idx is not None and [int(x) for x in idx_impl] != idx:
+			ctx.violation('pairwise', c, 'jaccarddist_pairwise modified the index object passed as indices (only `out` is documented as '
+			              'written)', impl=[int(x) for x in idx_impl], spec=idx)
+			continue
 		_report(ctx, 'pairwise', c, runs, expect, model, 'jaccarddist_pairwise' + (' (flat)' if flat else ''))
 	if offs is not None:
 		k = 0
@@ -994,8 +1087,21 @@ def k_conc(ctx, cases):
 	for c in cases:
 		jobs = c['jobs']
 		built = []
+		shared = None
+		if c.get('shared'):
+			# one references holder and one index object used by every job at the same time (state and aliasing audit)
+			j0 = jobs[0]
+			shared = dict(refs=_xcont(j0['cont'], j0['refs'], j0['rdt'])[0], ri=_x_index(c.get('ri'), c.get('ri_form', 'list'), len(j0['refs'])))
+			before = {}
+			_fp(shared['refs'], 'references', before)
+			_fp(shared['ri'], 'indices', before)
 		for j in jobs:
 			objs, _ = _x_build(j)
+			if shared:
+				objs['refs'] = shared['refs']
+				objs['ri'] = shared['ri'] if j['fn'] != 'array' else None
+				if j.get('qcont') == 'same':
+					objs['queries'] = shared['refs']
 			f, args, kw = _x_args(j, objs)
 			built.append((f, args, kw))
 		barrier = threading.Barrier(len(jobs))
@@ -1028,8 +1134,16 @@ def k_conc(ctx, cases):
 		if bad:
 			k, rep, got, expect = bad
 			ctx.violation('concurrent', c, f'job {k} (jaccarddist_{jobs[k]["fn"]}), run {rep}, issued together with {len(jobs) - 1} other '
-			              f'bulk call(s) from other Python threads: a cell differs from the pairwise distance (or the call failed)',
-			              impl=got, spec=expect)
+			              f'bulk call(s) from other Python threads{" on the SAME references holder and index object" if shared else ""}: '
+			              f'a cell differs from the pairwise distance (or the call failed)', impl=got, spec=expect)
+		elif shared:
+			after = {}
+			_fp(shared['refs'], 'references', after)
+			_fp(shared['ri'], 'indices', after)
+			d = _fp_diff(before, after)
+			if d is not None:
+				ctx.violation('concurrent', c, f'bulk calls from {len(jobs)} Python threads on one references holder and one index object '
+				              f'modified the caller\'s object {d}', impl=repr(after.get(d))[:600], spec=repr(before.get(d))[:600])
 
 
 def _env_child():
@@ -1085,8 +1199,456 @@ def k_env(ctx, cases):
 				break
 
 
+# ---- statefulness and aliasing audit: scripts of calls over a small pool of shared, long-lived objects ---------
+# A case holds 2-3 reference collections ("databases" of different or deliberately EQUAL size / signature lengths /
+# dtype, each in its own holder), 1-3 query arrays, 1-2 query holders, 2 index objects; its steps are bulk calls that
+# pick their arguments from that pool with repetition, and changes the CALLER makes to its own objects between calls.
+# Judged per step: the property predicate (every cell = gambit.metric.jaccarddist of the pair, computed from the
+# literals BEFORE the first step so that no other gambit call runs between two steps); result is the caller's
+# buffer; cells of the caller's array outside the view handed in keep their guard value; every other pool object is
+# bit-for-bit what it was before the call (out= is the one argument documented as written); a call marked `twice`
+# gives the same answer both times; arrays handed out earlier keep their values.  Steps that must or may fail
+# (index out of range for THIS collection, wrong buffer, bad item in the middle of the batch, an exception from the
+# caller's own progress meter / query sequence, a closed signature file) are followed by good calls on the same
+# objects and the same thread.  Judged by the predicate only (no Coq model: the model has no object identity).
+
+ST_FILE = ('hdf5', 'hdf5-gzip', 'hdf5-group', 'hdf5-annot', 'hdf5-b32', 'annot-hdf5')                      # readers this kind opens (and may close) itself
+ST_ITEM = ('pylist', 'strided-sigs', 'siglist', 'sub-list', 'siglist-of-array', 'annot-siglist')   # holders whose items the caller may replace
+ST_GROW = ('pylist', 'strided-sigs', 'siglist', 'sub-list', 'siglist-of-array')              # ... and that the caller may extend / shorten
+ST_CONTS_MAIN = ['array', 'hdf5', 'siglist', 'pylist', 'view', 'tuple']
+ST_CONTS = [x for x in XCONT_HOMOG if x != 'annot-hdf5'] + ['annot-hdf5']
+ST_IDX_FIXED = ('tuple', 'range', 'np-ro')                                                 # index forms the caller cannot write into
+ST_OUTS = ['none', 'none', 'fresh', 'shared:C', 'shared:C', 'shared:strided', 'shared:block', 'shared:F', 'shared:T']
+ST_GUARD = -7.5             # no distance has this value
+
+
+def _st_inplace(cont):
+	"""holder[i] is a writable view of the stored signature (everything that is not read from a file)"""
+	return 'hdf5' not in cont
+
+
+def _st_cont(name, sigs, dt):
+	if name == 'hdf5':      # a reader of its own (the one _container hands out is shared between cases)
+		from gambit.sigs.base import SignatureArray, dump_signatures, load_signatures
+		from gambit.kmers import KmerSpec
+		_state['nfile'] = _state.get('nfile', 0) + 1
+		path = os.path.join(_state['dir'], f's{_state["nfile"]}.gs')
+		dump_signatures(path, SignatureArray([_sig(s, dt) for s in sigs], KmerSpec(11, 'AT'), dtype=np.dtype(dt)), 'hdf5')
+		h = load_signatures(path)
+		return h, [h.close]
+	if name == 'annot-hdf5':
+		from gambit.sigs.base import AnnotatedSignatures, SignaturesMeta
+		h, cl = _st_cont('hdf5', sigs, dt)
+		return AnnotatedSignatures(h, ids=[f'g{i}' for i in range(len(sigs))], meta=SignaturesMeta(id='audit', id_attr='key')), cl
+	return _xcont(name, sigs, dt)
+
+
+def _st_buf(shape, lay):
+	"""-> (view handed to the call, the caller's whole array, mask of the cells that belong to the view)"""
+	shape = tuple(shape)
+	if lay == 'strided':
+		base = np.full(tuple(2 * s + 1 for s in shape), ST_GUARD, dtype=np.float32)
+		sl = tuple(slice(1, 2 * s + 1, 2) for s in shape)
+	elif lay == 'block':
+		base = np.full(tuple(s + 4 for s in shape), ST_GUARD, dtype=np.float32)
+		sl = tuple(slice(2, 2 + s) for s in shape)
+	elif lay == 'F':
+		base = np.full(shape, ST_GUARD, dtype=np.float32, order='F')
+		sl = tuple(slice(None) for _ in shape)
+	elif lay == 'T':
+		t = np.full(shape[::-1], ST_GUARD, dtype=np.float32)
+		return t.T, t, np.ones(shape[::-1], dtype=bool)
+	else:
+		base = np.full(shape, ST_GUARD, dtype=np.float32)
+		sl = tuple(slice(None) for _ in shape)
+	mask = np.zeros(base.shape, dtype=bool)
+	mask[sl] = True
+	return base[sl], base, mask
+
+
+def _st_boom(at):
+	from gambit.util.progress import TestProgressMeter
+
+	class Boom(TestProgressMeter):
+		calls = 0
+
+		def increment(self, delta=1):
+			self.calls += 1
+			if self.calls >= at:
+				raise RuntimeError('the caller\'s progress meter failed')
+			super().increment(delta)
+	return Boom
+
+
+class _BoomSeq(list):
+	"""a caller-supplied sequence of queries whose iteration fails at item `at`"""
+
+	def __init__(self, items, at):
+		super().__init__(items)
+		self.at = at
+
+	def __iter__(self):
+		for k, x in enumerate(list.__iter__(self)):
+			if k >= self.at:
+				raise RuntimeError('the caller\'s sequence failed')
+			yield x
+
+
+def _fp_arr(a):
+	base = a.base if isinstance(a.base, np.ndarray) else None
+	return (a.dtype.str, a.shape, a.strides, bool(a.flags.writeable), a.tobytes(), None if base is None else base.tobytes())
+
+
+def _fp(o, pre, acc):
+	"""observable state of a caller-owned object -> acc[path] = comparable value"""
+	import array
+	from gambit.sigs.base import SignatureArray, SignatureList, AnnotatedSignatures
+	from gambit.sigs.hdf5 import HDF5Signatures
+	if isinstance(o, np.ndarray):
+		acc[pre] = _fp_arr(o)
+		return
+	if isinstance(o, (list, tuple)):
+		acc[pre + ' (length, which items)'] = (type(o).__name__, len(o), [id(x) for x in o])
+		for i, x in enumerate(o):
+			_fp(x, f'{pre}[{i}]', acc)
+		return
+	if isinstance(o, array.array):
+		acc[pre] = (o.typecode, o.tobytes())
+		return
+	if hasattr(o, '__dict__'):
+		acc[pre + '.vars'] = sorted(vars(o))
+	if isinstance(o, AnnotatedSignatures):
+		acc[pre + '.signatures (which object)'] = id(o.signatures)
+		_fp(o.signatures, pre + '.signatures', acc)
+		acc[pre + '.ids'] = [str(x) for x in o.ids]
+		acc[pre + '.meta'] = repr(vars(o.meta)) if hasattr(o.meta, '__dict__') else repr(o.meta)
+	elif isinstance(o, HDF5Signatures):
+		acc[pre + '.open'] = bool(o)
+		if o:
+			acc[pre + '.file'] = (o.values[:].tobytes(), o.bounds.dtype.str, o.bounds[:].tobytes(), sorted((k, repr(v)) for k, v in o.group.attrs.items()))
+			acc[pre + '.attrs'] = (id(o.group), id(o.values), id(o.bounds), [str(x) for x in o.ids], repr(o.kmerspec), repr(vars(o.meta)),
+			                       int(o.format_version))
+	elif isinstance(o, SignatureArray):
+		acc[pre + '.values (which object)'] = id(o.values)
+		acc[pre + '.bounds (which object)'] = id(o.bounds)
+		acc[pre + '.kmerspec'] = repr(o.kmerspec)
+		_fp(o.values, pre + '.values', acc)
+		_fp(o.bounds, pre + '.bounds', acc)
+	elif isinstance(o, SignatureList):
+		acc[pre + '._list (which object)'] = id(o._list)
+		acc[pre + '.dtype, kmerspec'] = (str(o.dtype), repr(o.kmerspec))
+		_fp(o._list, pre + '._list', acc)
+	elif hasattr(o, 'callable') and hasattr(o, 'kw'):      # ProgressConfig
+		acc[pre + '.config'] = (id(o.callable), id(o.kw), repr(sorted(o.kw.items())))
+	else:
+		acc[pre] = (type(o).__name__, repr(o))
+
+
+def _fp_diff(before, after):
+	"""-> path of the first observable difference (attributes ADDED to an object are not one), or None"""
+	for p, v in before.items():
+		if p not in after:
+			return p
+		if p.endswith('.vars'):
+			if not set(v) <= set(after[p]):
+				return p
+		elif after[p] != v:
+			return p
+	return None
+
+
+def _st_fp_all(pool, prog):
+	acc = {}
+	for name in ('colls', 'qs', 'qsets', 'idx'):
+		for k, o in enumerate(pool[name]):
+			_fp(o, f'{name}[{k}]', acc)
+	_fp(prog['cfg'], 'progress', acc)
+	return acc
+
+
+def _st_shape(c, s, sizes, idxlens):
+	n = sizes[s['coll']]
+	m = n if s.get('idx') is None else idxlens[s['idx']]
+	if s['fn'] == 'array':
+		return [n]
+	if s['fn'] == 'matrix':
+		nq = n if s['qset'] == 'coll' else len(c['qsets'][s['qset']]['sigs']) + (1 if s.get('fail') == 'badq' else 0)
+		return [nq, m]
+	return [m * (m - 1) // 2] if s.get('flat') else [m, m]
+
+
+def _st_plan(c, cache):
+	"""walk the script on the literals alone -> per step None (the caller's own change) or
+	dict(mode='ok' | 'raise' | 'any', expect=cells, shape=shape of the result)"""
+	colls = [dict(sigs=[None if s is None else list(s) for s in k['sigs']], dt=k['dt'], closed=False) for k in c['colls']]
+	qs = [dict(dt=k['dt'], vals=list(k['vals'])) for k in c['qs']]
+	idx = [list(k['vals']) for k in c['idx']]
+	plan = []
+	for s in c['steps']:
+		op = s['op']
+		if op != 'call':
+			if op == 'set':
+				colls[s['coll']]['sigs'][s['i']] = None if s['vals'] is None else list(s['vals'])
+			elif op == 'grow':
+				colls[s['coll']]['sigs'].append(list(s['vals']))
+			elif op == 'shrink':
+				colls[s['coll']]['sigs'].pop()
+			elif op == 'close':
+				colls[s['coll']]['closed'] = True
+			elif op == 'rebuild':
+				colls[s['coll']] = dict(sigs=[list(x) for x in s['sigs']], dt=colls[s['coll']]['dt'], closed=False)
+			elif op == 'setidx':
+				idx[s['k']][s['pos']] = s['val']
+			elif op == 'setq':
+				qs[s['k']]['vals'] = list(s['vals'])
+			else:
+				raise ValueError(op)
+			plan.append(None)
+			continue
+		co = colls[s['coll']]
+		n = len(co['sigs'])
+		fn = s['fn']
+		ri = idx[s['idx']] if (fn != 'array' and s.get('idx') is not None) else None
+		same = fn == 'matrix' and s['qset'] == 'coll'
+		shape = _st_shape(c, s, [len(k['sigs']) for k in colls], [len(k) for k in idx])
+		m = n if ri is None else len(ri)
+		touched = list(range(n)) if ri is None else _select(list(range(n)), ri)
+		if co['closed'] or s.get('fail') in ('boom', 'badq', 'boomq'):
+			mode = 'any'
+		elif s.get('fail') == 'badout':
+			mode = 'raise'
+		elif touched is None:
+			mode = 'raise' if (fn == 'matrix' or m >= 2) else 'any'
+		elif any(co['sigs'][j] is None for j in touched) or (same and any(x is None for x in co['sigs'])):
+			mode = 'any'
+		else:
+			mode = 'ok'
+		expect = None
+		if mode == 'ok':
+			sc = dict(fn=fn, refs=co['sigs'], rdt=co['dt'], ri=ri, flat=s.get('flat'))
+			if fn == 'array':
+				sc.update(q=qs[s['q']]['vals'], qdt=qs[s['q']]['dt'])
+			elif same:
+				sc['qcont'] = 'same'
+			elif fn == 'matrix':
+				sc.update(queries=c['qsets'][s['qset']]['sigs'], qdt=c['qsets'][s['qset']]['dt'])
+			expect, shape2 = _x_expect(sc, cache)
+			assert list(shape2) == list(shape), (shape, shape2)
+		plan.append(dict(mode=mode, expect=expect, shape=shape))
+	return plan
+
+
+def _st_apply(s, c, pool, coll_closers):
+	"""a change the CALLER makes to one of its own objects between two calls"""
+	op = s['op']
+	if op in ('set', 'grow', 'shrink', 'close', 'rebuild'):
+		k = s['coll']
+		cont, dt = c['colls'][k]['cont'], c['colls'][k]['dt']
+		obj = pool['colls'][k]
+		tgt = obj.signatures if cont.startswith('annot-') else obj
+		if op == 'set' and s['mode'] == 'item':
+			tgt[s['i']] = np.array([1.5, 2.5], dtype='f4') if s['vals'] is None else _sig(s['vals'], dt)
+		elif op == 'set':
+			new = _sig(s['vals'], dt)
+			view = obj[s['i']]
+			view[...] = new
+			if not np.array_equal(obj[s['i']], new):
+				raise RuntimeError(f'harness: {cont}[i] is not a view of the stored signature')
+		elif op == 'grow':
+			tgt.append(_sig(s['vals'], dt))
+		elif op == 'shrink':
+			tgt.pop()
+		elif op == 'close':
+			_close(coll_closers[k])
+		else:
+			_close(coll_closers[k])
+			pool['colls'][k] = obj = tgt = None          # the old object is gone before the new one is made (its address may be reused)
+			pool['colls'][k], coll_closers[k] = _st_cont(cont, s['sigs'], dt)
+	elif op == 'setidx':
+		pool['idx'][s['k']][s['pos']] = s['val']
+	elif op == 'setq':
+		pool['qs'][s['k']][...] = _sig(s['vals'], c['qs'][s['k']]['dt'])
+	else:
+		raise ValueError(op)
+
+
+def _st_invoke(s, c, pool, prog, out):
+	import warnings
+	import gambit.metric as gm
+	refs = pool['colls'][s['coll']]
+	fn = s['fn']
+	ri = pool['idx'][s['idx']] if (fn != 'array' and s.get('idx') is not None) else None
+	kw = {}
+	p = s.get('progress')
+	if s.get('fail') == 'boom':
+		kw['progress'] = _st_boom(s.get('at', 1))
+	elif p is not None:
+		kw['progress'] = prog[p]
+	with warnings.catch_warnings():
+		warnings.simplefilter('ignore')
+		if fn == 'array':
+			return gm.jaccarddist_array(pool['qs'][s['q']], refs, out=out)
+		if fn == 'matrix':
+			queries = refs if s['qset'] == 'coll' else pool['qsets'][s['qset']]
+			if s.get('fail') == 'badq':
+				queries = list(queries)
+				queries.insert(min(s.get('at', 1), len(queries)), np.array([0.5, 1.5], dtype='f4'))
+			elif s.get('fail') == 'boomq':
+				queries = _BoomSeq(list(queries), s.get('at', 1))
+			return gm.jaccarddist_matrix(queries, refs, ref_indices=ri, out=out, chunksize=s.get('cs'), **kw)
+		return gm.jaccarddist_pairwise(refs, indices=ri, flat=bool(s.get('flat')), out=out, **kw)
+
+
+def _st_run(c, plan):
+	"""-> (None | (what, values), nontrivial, counters)"""
+	import threading
+	from gambit.util.progress import TestProgressMeter, progress_config
+	stats = {}
+
+	def count(key):
+		stats[key] = stats.get(key, 0) + 1
+	closers = []
+	coll_closers = []
+	pool = dict(colls=[], qs=[], qsets=[], idx=[])
+	try:
+		for k in c['colls']:
+			obj, cl = _st_cont(k['cont'], k['sigs'], k['dt'])
+			pool['colls'].append(obj)
+			coll_closers.append(cl)
+		pool['qs'] = [_sig(k['vals'], k['dt']) for k in c['qs']]
+		for k in c['qsets']:
+			obj, cl = _xcont(k['cont'], k['sigs'], k['dt'])
+			pool['qsets'].append(obj)
+			closers += cl
+		pool['idx'] = [_x_index(k['vals'], k['form']) for k in c['idx']]
+		prog = dict(cfg=progress_config(TestProgressMeter).update(desc='Calculating distances'), cls=TestProgressMeter)
+		bufs = {}       # (shape, layout) -> [view, whole array, mask, bytes of the whole array after its last use]
+		kept = []       # (step, array the call returned in memory of its own, expected cells)
+		base = _st_fp_all(pool, prog)
+		n_ok = 0
+		nontriv = False
+		for k, (s, p) in enumerate(zip(c['steps'], plan)):
+			if p is None:
+				_st_apply(s, c, pool, coll_closers)
+				base = _st_fp_all(pool, prog)
+				count('state:caller-change:' + s['op'])
+				continue
+			what = (f'step {k} of a script on shared objects (jaccarddist_{s["fn"]} on collection {s["coll"]} [{c["colls"][s["coll"]]["cont"]}], '
+			        f'indices {s.get("idx")}, out={s["out"]}{", expected to fail: " + str(s.get("fail") or "input") if p["mode"] != "ok" else ""})')
+			shape = list(p['shape'])
+			buf = None
+			if s.get('fail') == 'badout':
+				bad = shape[:-1] + [shape[-1] + 1]
+				buf = list(_st_buf(bad, 'C')) + [None]
+			elif s['out'].startswith('shared:'):
+				key = (tuple(shape), s['out'][7:])
+				if key not in bufs:
+					bufs[key] = list(_st_buf(shape, key[1])) + [None]
+					bufs[key][3] = bufs[key][1].tobytes()
+				buf = bufs[key]
+			elif s['out'] == 'fresh':
+				buf = list(_st_buf(shape, 'C')) + [None]
+			out = None if buf is None else buf[0]
+			runs = []
+
+			def work():
+				_set_threads(min(s.get('threads', 1), 4) if s.get('thread') else s.get('threads', 1))
+				for _ in range(2 if s.get('twice') else 1):
+					runs.append(_call_obj(lambda: _st_invoke(s, c, pool, prog, out)))
+			if s.get('thread'):
+				t = threading.Thread(target=work)
+				t.start()
+				t.join()
+				count('state:call-from-second-thread')
+			else:
+				work()
+			count('state:call:' + p['mode'])
+			# -- the outcome
+			for r, (got, obj) in enumerate(runs):
+				if p['mode'] == 'ok':
+					if got != ('ok', p['expect']):
+						again = ' (the same call repeated at once)' if r else ''
+						return (f'{what}{again}: a cell differs from gambit.metric.jaccarddist of the pair it stands for (or the call failed)',
+						        dict(impl=got, spec=p['expect'])), nontriv, stats
+					if out is not None and obj is not out:
+						return (f'{what}: result is not the caller-supplied buffer', dict(impl=got)), nontriv, stats
+					if out is None or s['out'] == 'fresh':
+						kept.append((k, obj, p['expect']))
+				elif p['mode'] == 'raise' and got[0] != 'err':
+					return (f'{what}: returned an array although a cell of it has no pair to stand for', dict(impl=got)), nontriv, stats
+				elif got[0] == 'err':
+					count('state:failed-call:' + got[1].split(':')[0])
+			if p['mode'] == 'ok':
+				n_ok += 1
+				flatx = [x for row in p['expect'] for x in (row if isinstance(row, list) else [row])]
+				nontriv = nontriv or (n_ok >= 2 and len(set(flatx)) >= 2)
+			# -- the caller's objects after the call
+			if buf is not None:
+				whole, mask = buf[1], buf[2]
+				if not bool(np.all(whole[~mask] == np.float32(ST_GUARD))):
+					return (f'{what}: cells of the caller\'s array OUTSIDE the {s["out"]} view it passed as `out` were written',
+					        dict(impl=_bits(whole).__repr__()[:400])), nontriv, stats
+				buf[3] = whole.tobytes()
+			for key, other in bufs.items():
+				if other is not buf and other[1].tobytes() != other[3]:
+					return (f'{what}: an output buffer of an EARLIER call (shape {list(key[0])}, {key[1]}), not passed to this one, was written',
+					        dict(impl=_bits(other[0]))), nontriv, stats
+			after = _st_fp_all(pool, prog)
+			d = _fp_diff(base, after)
+			if d is not None:
+				return (f'{what}: the call modified the caller\'s object {d} (only `out` is documented as written)',
+				        dict(impl=repr(after.get(d))[:600], spec=repr(base.get(d))[:600])), nontriv, stats
+		for k, obj, expect in kept:
+			if _bits(obj) != expect:
+				return (f'step {k}: the array the call returned no longer holds its distances after later calls (results of different calls '
+				        f'share memory)', dict(impl=_bits(obj), spec=expect)), nontriv, stats
+		return None, nontriv, stats
+	finally:
+		_close(closers)
+		for cl in coll_closers:
+			_close(cl)
+
+
+def k_state(ctx, cases):
+	cache = {}
+	for c in cases:
+		plan = _st_plan(c, cache)
+		bad, nontriv, stats = _st_run(c, plan)
+		ctx.case(c, nontrivial=nontriv)
+		for key, v in stats.items():
+			ctx.count(key, v)
+		if bad:
+			ctx.violation('state', c, bad[0], **bad[1])
+
+
+def k_chunkgens(ctx, cases):
+	"""chunk_slices is a generator function: several generators alive at once (and the same arguments asked for again)
+	must each yield their own slices"""
+	from gambit.util.misc import chunk_slices
+	for c in cases:
+		pairs = [tuple(p) for p in c['pairs']]
+		want = [[[a, a + size] for a in range(0, max(n, 0), size)] for n, size in pairs]
+		gens = [chunk_slices(n, size) for n, size in pairs]
+		got = [[] for _ in pairs]
+		live = list(range(len(pairs)))
+		while live:
+			for g in list(live):
+				try:
+					sl = next(gens[g])
+					got[g].append([sl.start, sl.stop])
+				except StopIteration:
+					live.remove(g)
+		ctx.case(c, nontrivial=len(pairs) >= 2 and any(len(w) >= 2 for w in want))
+		for g, (n, size) in enumerate(pairs):
+			covered = [x for a, b in got[g] for x in list(range(n))[a:b]]
+			if covered != list(range(n)) or len(got[g]) != len(want[g]):
+				ctx.violation('chunkgens', c, f'chunk_slices({n}, {size}), advanced in turn with {len(pairs) - 1} other generator(s) '
+				              f'(same arguments asked for more than once): the slices are not its own', impl=got[g], spec=want[g])
+				break
+
+
 KINDS = {'array': k_array, 'matrix': k_matrix, 'pairwise': k_pairwise, 'chunks': k_chunks, 'schedule': k_schedule,
-         'api': k_api, 'sequence': k_seq, 'concurrent': k_conc, 'envthreads': k_env}
+         'api': k_api, 'sequence': k_seq, 'concurrent': k_conc, 'envthreads': k_env, 'state': k_state, 'chunkgens': k_chunkgens}
 SHRINK = False
 BATCH = 400
 
@@ -1295,6 +1857,9 @@ def generate(ctx):
 
 	# ======== streams added by the coverage audit (see the table in the module docstring) ========================
 	yield from _audit_streams(ctx)
+
+	# ======== streams added by the statefulness / aliasing audit (section "state and aliasing" of the docstring) =====
+	yield from _state_streams(ctx)
 
 
 def _top(dt):
@@ -1619,3 +2184,261 @@ def _audit_streams(ctx):
 			jobs.append(j)
 		ctx.count('stream:audit-concurrent-callers')
 		yield 'concurrent', dict(jobs=jobs, reps=3)
+
+
+def _st_sig_like(rng, old, dt, wide):
+	"""another sorted duplicate-free signature of the SAME length (what a cache keyed by length cannot tell apart)"""
+	k = len(old)
+	if wide:
+		s = _wide_sig(rng, dt, k)
+		if len(s) == k:
+			return s
+	return sorted(rng.sample(range(max(2 * k + 2, rng.choice([8, 40, 1000]))), k))
+
+
+def _st_case(rng):
+	wide = rng.random() < 0.3
+	ncoll = rng.choice([2, 2, 3])
+	alike = rng.random() < 0.5          # collections of equal size, signature lengths and dtype, other values
+	n0, dt0 = rng.choice([2, 3, 4, 6]), rng.choice(GOOD_DT)
+	colls = []
+	for k in range(ncoll):
+		dt = dt0 if (alike or rng.random() < 0.4) else rng.choice(GOOD_DT)
+		if alike and k:
+			sigs = [_st_sig_like(rng, s, dt, wide) if rng.random() < 0.8 else list(s) for s in colls[0]['sigs']]
+		else:
+			sigs = _coll(rng, n0 if alike else rng.choice([1, 2, 3, 4, 6, 9]), dt, wide)
+		if alike and k and rng.random() < 0.5:
+			cont = colls[0]['cont']
+		else:
+			cont = rng.choice(ST_CONTS_MAIN) if rng.random() < 0.6 else rng.choice(ST_CONTS)
+		colls.append(dict(cont=cont, dt=dt, sigs=sigs))
+	qs = []
+	for _ in range(rng.choice([1, 2, 3])):
+		dt = rng.choice(GOOD_DT)
+		vals = _st_sig_like(rng, qs[0]['vals'], dt, wide) if (qs and rng.random() < 0.5) else _coll(rng, 1, dt, wide)[0]
+		qs.append(dict(dt=dt, vals=vals))
+	qsets = []
+	for _ in range(rng.choice([1, 2])):
+		dt = rng.choice(GOOD_DT)
+		qsets.append(dict(cont=rng.choice(['pylist', 'array', 'siglist', 'tuple', 'view']), dt=dt, sigs=_coll(rng, 2, dt, wide)))
+	idx = []
+	for _ in range(2):
+		n = len(rng.choice(colls)['sigs'])
+		form = rng.choice(RI_FORMS)
+		idx.append(dict(form=form, vals=list(_fit_index_form(rng, dict(refs=[None] * n, ri=None), form)['ri'])))
+	c = dict(colls=colls, qs=qs, qsets=qsets, idx=idx)
+
+	# the generator's own picture of the pool (so that every change it writes into the script is one the caller can make)
+	sigs = [[list(s) for s in k['sigs']] for k in colls]
+	closed = [False] * ncoll
+	poisoned = []
+	ivals = [list(k['vals']) for k in idx]
+	qvals = [list(k['vals']) for k in qs]
+
+	def call(coll=None, fail='auto', want=None):
+		fn = rng.choice(['array', 'matrix', 'matrix', 'pairwise'])
+		if want and want[0] == 'idx':
+			fn = rng.choice(['matrix', 'pairwise'])
+		elif want and want[0] == 'q':
+			fn = 'array'
+		s = dict(op='call', fn=fn, coll=rng.randrange(ncoll) if coll is None else coll, threads=rng.randint(1, 16), out=rng.choice(ST_OUTS))
+		if fn == 'array':
+			s['q'] = want[1] if want else rng.randrange(len(qs))
+		else:
+			s['idx'] = rng.choice([None, 0, 1])
+			if want:
+				s['idx'] = want[1]
+			s['progress'] = rng.choice([None, None, 'cfg', 'cls'])
+			if fn == 'matrix':
+				s['qset'] = rng.choice(list(range(len(qsets))) + ['coll'])
+				s['cs'] = rng.choice([None, 1, 2, 3, 5])
+			else:
+				s['flat'] = rng.random() < 0.5
+		if fail == 'auto' and rng.random() < 0.2:
+			opts = ['badout']
+			if fn != 'array':
+				opts += ['boom', 'boom']
+			if fn == 'matrix' and s['qset'] != 'coll':
+				opts += ['badq', 'boomq']
+			s['fail'] = rng.choice(opts)
+			s['at'] = rng.choice([1, 1, 2, 3])
+		if rng.random() < 0.25:
+			s['twice'] = True
+		if rng.random() < 0.15:
+			s['thread'] = True
+		return s
+
+	def change(target=None):
+		"""one change the caller makes to an object of its own (to `target` = ('coll' | 'idx' | 'q', k) if given);
+		-> (step, the object changed) or None when the object drawn offers no such change"""
+		if target is None:
+			r = rng.random()
+			target = ('coll', rng.randrange(ncoll)) if r < 0.64 else ('idx', rng.randrange(len(idx))) if r < 0.82 else ('q', rng.randrange(len(qs)))
+		what, k = target
+		if what == 'idx':
+			if idx[k]['form'] in ST_IDX_FIXED or not ivals[k]:
+				return None
+			n2 = len(sigs[rng.randrange(ncoll)])
+			val = rng.randrange(-n2, n2)
+			if not _ri_ok([val], idx[k]['form']):
+				val = rng.randrange(n2)
+			pos = rng.randrange(len(ivals[k]))
+			if ivals[k][pos] == val:
+				return None
+			ivals[k][pos] = val
+			return dict(op='setidx', k=k, pos=pos, val=val), target
+		if what == 'q':
+			if not qvals[k]:
+				return None
+			new = _st_sig_like(rng, qvals[k], qs[k]['dt'], wide)
+			qvals[k] = new
+			return dict(op='setq', k=k, vals=new), target
+		cont, dt = colls[k]['cont'], colls[k]['dt']
+		n = len(sigs[k])
+		mine = [p for p in poisoned if p[0] == k]
+		if mine and rng.random() < 0.7:
+			poisoned.remove(mine[0])
+			new = _coll(rng, 1, dt, wide)[0]
+			sigs[k][mine[0][1]] = new
+			return dict(op='set', mode='item', coll=k, i=mine[0][1], vals=new), target
+		opts = ['rebuild']
+		if not closed[k]:
+			opts += ['item', 'item', 'item', 'poison'] if cont in ST_ITEM else []
+			opts += ['inplace', 'inplace', 'inplace'] if _st_inplace(cont) else []
+			opts += ['grow', 'shrink'] if cont in ST_GROW else []
+			opts += ['close', 'rebuild'] if cont in ST_FILE else []
+		op = rng.choice(opts)
+		i = rng.randrange(n)
+		if op in ('item', 'inplace', 'poison') and sigs[k][i] is None:
+			return None
+		if op == 'poison':
+			if poisoned:
+				return None
+			poisoned.append((k, i))
+			sigs[k][i] = None
+			return dict(op='set', mode='item', coll=k, i=i, vals=None), target
+		if op == 'item':
+			new = _coll(rng, 1, dt, wide)[0] if rng.random() < 0.4 else _st_sig_like(rng, sigs[k][i], dt, wide)
+			sigs[k][i] = new
+			return dict(op='set', mode='item', coll=k, i=i, vals=new), target
+		if op == 'inplace':
+			if not sigs[k][i]:
+				return None
+			new = _st_sig_like(rng, sigs[k][i], dt, wide)
+			sigs[k][i] = new
+			return dict(op='set', mode='inplace', coll=k, i=i, vals=new), target
+		if op == 'shrink':
+			if n <= 1 or (k, n - 1) in poisoned:
+				return None
+			sigs[k].pop()
+			return dict(op='shrink', coll=k), target
+		if op == 'grow':
+			new = _coll(rng, 1, dt, wide)[0]
+			sigs[k].append(new)
+			return dict(op='grow', coll=k, vals=new), target
+		if op == 'close':
+			closed[k] = True
+			return dict(op='close', coll=k), target
+		# the holder is dropped and made again: same shape and other values (what a cache keyed by address / size / lengths cannot
+		# tell from the old one), or another size
+		new = [_st_sig_like(rng, x, dt, wide) if x is not None else [] for x in sigs[k]] if rng.random() < 0.6 else \
+			_coll(rng, rng.choice([1, 2, 3, 4, 6]), dt, wide)
+		sigs[k] = [list(x) for x in new]
+		closed[k] = False
+		poisoned[:] = [p for p in poisoned if p[0] != k]
+		return dict(op='rebuild', coll=k, sigs=new), target
+
+	def used(s):
+		"""the pool objects a call step uses"""
+		out = [('coll', s['coll'])]
+		if s['fn'] == 'array':
+			out.append(('q', s['q']))
+		elif s.get('idx') is not None:
+			out += [('idx', s['idx'])] * 2
+		return out
+
+	def arg_for(w):
+		return dict(coll=w[1]) if w and w[0] == 'coll' else dict(want=w) if w else {}
+
+	steps = []
+	pattern = rng.random()
+	if pattern < 0.3:
+		# the same call three times with ONE argument different in the middle: the collection (a, b, a), the index object, the
+		# chunk size, the queries - everything else (index object, shared buffer, queries, progress configuration) stays
+		first = call(fail=None)
+		first.pop('thread', None)
+		vary = rng.choice(['coll', 'coll', 'coll', 'idx', 'idx', 'cs', 'q'])
+		second = dict(first)
+		if vary == 'coll' or first['fn'] == 'array' and vary != 'q':
+			second['coll'] = rng.choice([k for k in range(ncoll) if k != first['coll']])
+		elif vary == 'idx' or first['fn'] == 'pairwise':
+			second['idx'] = rng.choice([x for x in (None, 0, 1) if x != first['idx']])
+		elif vary == 'cs':
+			second['cs'] = rng.choice([x for x in (None, 1, 2, 3, 5) if x != first['cs']])
+		elif first['fn'] == 'array':
+			second['q'] = rng.randrange(len(qs))
+		else:
+			second['qset'] = rng.choice([x for x in list(range(len(qsets))) + ['coll'] if x != first['qset']] or [first['qset']])
+		steps = [first, second, dict(first)]
+		if rng.random() < 0.4:
+			steps.insert(rng.choice([1, 2]), call(fail='auto'))
+	elif pattern < 0.6:
+		# a call, a change the caller makes to an object that call used, the same call again (and once more after a second change)
+		first = call(fail=None)
+		steps = [first]
+		for _ in range(rng.choice([1, 1, 2])):
+			ch = None
+			for _ in range(4):
+				ch = ch or change(rng.choice(used(first)))
+			if ch:
+				steps += [ch[0], dict(first)]
+		if len(steps) == 1:
+			steps.append(call(fail=None))
+		if rng.random() < 0.3:
+			steps.insert(1, call(fail='auto'))
+	else:
+		want = None
+		for _ in range(rng.choice([2, 3, 4, 5, 6])):
+			if not steps or rng.random() < 0.65:
+				steps.append(call(**arg_for(want if rng.random() < 0.75 else None)))
+				want = None
+			else:
+				ch = change()
+				if ch:
+					steps.append(ch[0])
+					want = ch[1]
+		steps.append(call(fail=None, **arg_for(want)))
+	c['steps'] = steps
+	return c
+
+
+def _state_streams(ctx):
+	rng = ctx.rng
+	for _ in range(ctx.pick(640, 5000)):
+		ctx.count('stream:state-scripts')
+		yield 'state', _st_case(rng)
+	# several Python threads at once on ONE references holder and ONE index object
+	for _ in range(ctx.pick(40, 400)):
+		base = _api_case(rng, fn='matrix', n=rng.choice([3, 6, 9, 30]), cont=rng.choice(XCONT_MEM))
+		if base['ri'] is not None and rng.random() < 0.7:
+			_fit_index_form(rng, base, rng.choice(RI_FORMS))
+		jobs = []
+		for _ in range(rng.choice([2, 3, 4])):
+			j = _api_case(rng, fn=rng.choice(['array', 'matrix', 'matrix', 'pairwise']), n=2, cont=base['cont'], refs=base['refs'], rdt=base['rdt'])
+			if j['fn'] != 'array':
+				j.update(ri=base['ri'], ri_form=base.get('ri_form', 'list'))
+			if j['fn'] == 'matrix' and rng.random() < 0.2:
+				j['qcont'] = 'same'
+				j['qdt'] = j['qdt'] if isinstance(j['qdt'], str) else j['qdt'][0]
+			j['threads'] = rng.randint(1, 4)
+			j.pop('reps', None)
+			jobs.append(j)
+		ctx.count('stream:state-concurrent-shared-objects')
+		yield 'concurrent', dict(jobs=jobs, reps=3, shared=True, ri=base['ri'], ri_form=base.get('ri_form', 'list'))
+	for _ in range(ctx.pick(40, 400)):
+		pairs = [[rng.choice([0, 1, 2, 5, 9, 16]), rng.choice([1, 2, 3, 4, 7])] for _ in range(rng.choice([2, 3, 4]))]
+		if rng.random() < 0.6:
+			pairs.append(list(rng.choice(pairs)))
+		ctx.count('stream:state-chunk-generators')
+		yield 'chunkgens', dict(pairs=pairs)
